@@ -70,6 +70,30 @@ def readHeader : Parser Header := do
 def versionString (major minorRev : Nat) : String :=
   s!"{major}.{minorRev / 16}.{minorRev % 16}"
 
+/-- `Header.CreatedAt` as an instant: the Unix time of
+`time.Date(year, month, day, hour, minute, second, 0, time.UTC)` for the six 16-bit numbers as
+stored — out-of-range components carry over into the next larger unit, as `time.Date` documents. -/
+def createdAtUnix : List Nat → Int
+  | [y, mo, d, h, mi, s] =>
+    -- month 0 is December of the year before: shift the month count by 12 to stay in `Nat`
+    let mm := mo + 11                       -- (mo − 1) + 12
+    let yN := y + mm / 12                   -- year + 1
+    let mN := mm % 12 + 1
+    let days := daysToMonthShift yN mN
+    (days + (d : Int) - 1) * 86400 + h * 3600 + mi * 60 + s
+  | _ => 0
+where
+  /-- days from 1970-01-01 to the first day of month `m ∈ 1..12` of proleptic Gregorian year
+  `yN − 1` (civil-from-days arithmetic, years shifted by 400 so that it stays in `Nat`) -/
+  daysToMonthShift (yN m : Nat) : Int :=
+    let y' := if m ≤ 2 then yN + 398 else yN + 399
+    let era := y' / 400
+    let yoe := y' % 400
+    let mp := if m > 2 then m - 3 else m + 9
+    let doy := (153 * mp + 2) / 5
+    let doe := yoe * 365 + yoe / 4 - yoe / 100 + doy
+    ((era * 146097 + doe : Nat) : Int) - 719468 - 146097
+
 def u32 : Nat := 4294967296
 
 /-- the tag index loop: returns entries in table order and `endOfTagData` -/
